@@ -119,9 +119,15 @@ static void vi_drawfix(int r1, int r2, int n, int preview)
 	int i;
 	if (preview && r1 < xtop)
 		xtop = r1;
+	term_record();
+	if (r1 < xtop) {	/* the replaced lines start above the window */
+		for (i = xtop; i < xtop + xrows; i++)
+			vi_drawrow(i);
+		term_commit();
+		return;
+	}
 	r1 = MIN(MAX(r1, xtop), xtop + xrows - 1);
 	r2 = MIN(MAX(r2, xtop), xtop + xrows - 1);
-	term_record();
 	term_pos(r1 - xtop, 0);
 	term_room(r1 - r2 - 1 + n);
 	/* new lines are visible */
